@@ -481,6 +481,19 @@ def verify_c14(M, p, c, t, ctx, tmpdir, serial):
             except Exception:
                 pass
         M.law(not rec.events, method, 'no-open', 'a call without is_path opened %r' % (rec.events[:2],), ctx, 'C14')
+    # the same path again, now holding another text of exactly the same byte length (a reader that remembers the
+    # last file by name and size must not answer from memory)
+    t2 = t[1:] + t[:1] if len(set(t)) > 1 else ('b' * len(t) if t and t[0] != 'b' else 'c' * len(t))
+    if t2 != t and len(t2.encode('utf-8', 'surrogatepass')) == len(t.encode('utf-8', 'surrogatepass')):
+        with open(path, 'w', encoding='utf-8', newline='') as f:
+            f.write(t2)
+        ctx2 = dict(ctx, text=t2, hist=list(ctx.get('hist', [])) + ['same-path-rewritten'])
+        for method, extra in (('get_matches', ()), ('replace', ('<R>', 1)), ('has_match', ())):
+            try:
+                want = getattr(p, method)(t2, *extra)
+            except Exception:
+                continue
+            M.call(p, method, (path,) + tuple(extra), {'is_path': True}, want, ctx2, 'C14', law='path')
     os.remove(path)
 
 
